@@ -52,6 +52,7 @@ def run(repo, chk):
                       'closed — on every path and for every errno class of the send failure')
     chk.rule('C11.b', 'buffer discipline: append on write, popleft on writability, appendleft on put-back')
     chk.rule('C11.c', 'close is deferred while data is buffered and performed by the drain path')
+    chk.rule('C11.f', 'a client endpoint buffers payloads only while connected (a late write must not leak into the next connection)')
     chk.rule('C11.e', 'reading end-of-stream only requests a close (deferred while data is buffered); the read path closes at once only on errors')
     chk.rule('C11.d', 'write ensures writer interest; drained buffer removes it; _close clears buffer and flags')
     eps = endpoints(repo)
@@ -101,7 +102,8 @@ def endpoint(repo, chk, on_write):
     gw = wh.cfg()
     dv = wh.params[-1]
     app = [n for n in gw.nodes if n.kind == 'stmt' and any(r == buf and [src(a) for a in c.args] == [dv] for r, c in pat.method_calls(n.ast, 'append'))]
-    gone_w = pat.test_edge(lambda tt, pol: len(wh.params) > 2 and pat.fact_matches(pat.compare_fact(tt, pol), wh.params[1], ('not in',), 'self._clients'))
+    gone_w = pat.test_edge(lambda tt, pol: (len(wh.params) > 2 and pat.fact_matches(pat.compare_fact(tt, pol), wh.params[1], ('not in',), 'self._clients')) or
+                           (len(wh.params) == 2 and ((pol == 'F' and src(tt) == 'self._connected') or (pol == 'T' and src(tt) == 'not self._connected'))))
     p = Q.escapes(gw, [gw.entry], lambda n: n in app, avoid_edge=gone_w)
     chk.ob('b', wh.ref, 'write() appends the payload at the end of the buffer on every path (a connection that is gone is ignored)', p is None and bool(app), loc(wh, wh.node),
            path=pat.path_lines(p) if p else None, discr='append')
@@ -115,7 +117,8 @@ def endpoint(repo, chk, on_write):
     addw = [n for n in gw.nodes if n.kind == 'stmt' and any(r == 'self._poller' for r, _c in pat.method_calls(n.ast, 'addWriter'))]
     p = Q.escapes(gw, [gw.entry], lambda n: n in addw, avoid_edge=pat.test_edge(
         lambda tt, pol: (pol == 'T' and 'isWriting' in src(tt)) or (is_file and pat.fact_matches(pat.compare_fact(tt, pol), 'self._poller', ('is', '=='), 'None'))
-        or (len(wh.params) > 2 and pat.fact_matches(pat.compare_fact(tt, pol), wh.params[1], ('not in',), 'self._clients'))))
+        or (len(wh.params) > 2 and pat.fact_matches(pat.compare_fact(tt, pol), wh.params[1], ('not in',), 'self._clients'))
+        or (len(wh.params) == 2 and pol == 'F' and src(tt) == 'self._connected')))
     chk.ob('d', wh.ref, 'write() registers writer interest unless it is already registered', p is None and bool(addw), loc(wh, wh.node),
            path=pat.path_lines(p) if p else None, discr='interest-on-write')
     # drain path in on_write: buffer empty ⇒ deferred close performed, else interest removed
@@ -180,6 +183,46 @@ def endpoint(repo, chk, on_write):
                                                                                and '_closeq' in src(e2.src.ast))), extra_exit=lambda m: m.kind == 'for')
     chk.ob('c', ch.ref, 'with data still buffered close() records a deferred close', bool(rec) and bad is None, loc(ch, ch.node),
            path=pat.path_lines(bad) if bad else None, discr='deferred-recorded')
+    # --- f: a client endpoint accepts payloads only while it is connected (what is buffered otherwise would go out on the next connection)
+    has_conn = any(any(r == 'self' and a == '_connected' and src(v) == 'True' for r, a, v in pat.attr_store(n)) for c_ in [cls] + cls.mro() for m_ in c_.methods.values()
+                   for n in walk_no_defs(m_.node) if isinstance(n, ast.Assign)) or any(
+        any(r == 'self' and a == '_connected' and src(v) == 'True' for r, a, v in pat.attr_store(n)) for sc in repo.subclasses(cls) for m_ in sc.methods.values()
+        for n in walk_no_defs(m_.node) if isinstance(n, ast.Assign))
+    if has_conn and len(wh.params) == 2:
+        for a_ in app:
+            q = pat.guarded_by(gw, a_, pat.test_edge(lambda tt, pol: (pol == 'T' and src(tt) == 'self._connected') or (pol == 'F' and src(tt) in ('not self._connected',))
+                                                      or pat.fact_matches(pat.compare_fact(tt, pol), 'self._connected', ('is', '=='), 'True')))
+            chk.ob('f', wh.ref, 'a payload is buffered only while the endpoint is connected', q is None, loc(wh, a_.ast), path=pat.path_lines(q) if q else None,
+                   discr='buffer-only-connected')
+    # --- d: nothing outside _close takes the writer interest away while data is buffered (discard() removes both interests)
+    for m_ in cls.methods.values():
+        if m_.name in ('_close',) or m_ is on_write:
+            continue
+        gm = m_.cfg()
+        for n in gm.nodes:
+            if n.kind != 'stmt':
+                continue
+            drops = [c for meth in ('discard', 'removeWriter') for r, c in pat.method_calls(n.ast, meth) if r == 'self._poller']
+            if not drops:
+                continue
+            chk.touch(m_)
+            q = pat.guarded_by(gm, n, pat.test_edge(lambda tt, pol: pol == 'F' and (src(tt) in bufset or src(tt).replace('sock', 'sock') in bufset)))
+            chk.ob('d', m_.ref, f'`{src(drops[0])}` outside the close routine does not end the flushing of buffered data (buffer known empty, or only the read interest is dropped)',
+                   q is None, loc(m_, n.ast), discr=f'writer-kept:{m_.name}')
+    # --- c: a connection leaves the client list (outside _close) only when nothing is buffered for it: the write path serves client sockets only
+    for m_ in cls.methods.values():
+        if m_.name == '_close':
+            continue
+        gm = m_.cfg()
+        for n in gm.nodes:
+            if n.kind == 'stmt' and any(r == 'self._clients' for r, _c in pat.method_calls(n.ast, 'remove')):
+                c_ = [c for r, c in pat.method_calls(n.ast, 'remove') if r == 'self._clients'][0]
+                sv = src(c_.args[0]) if c_.args else 'sock'
+                bs = {f'self._buffers[{sv}]', f'self._buffers.get({sv})'}
+                chk.touch(m_)
+                q = pat.guarded_by(gm, n, pat.test_edge(lambda tt, pol: pol == 'F' and src(tt) in bs))
+                chk.ob('c', m_.ref, 'a connection is taken out of the client list (for a TLS upgrade) only after its buffer has drained', q is None, loc(m_, n.ast),
+                       path=pat.path_lines(q) if q else None, discr=f'leaves-clients-drained:{m_.name}')
     # --- e: the read path: end of stream is a close *request*
     rd = cls.lookup('_read')
     if rd is not None:
@@ -292,6 +335,9 @@ def rule_a(chk, wr, buf, is_file):
             q = Q.escapes(g, [h], lambda n: False, avoid_edge=lambda e2: contradicts(e2) or e2.dst in requeue_whole, exits=('exit', 'raise'))
             chk.ob('a', wr.ref, f'errno {errno} (fatal): the payload is not put back for ever', q is not None, loc(wr, h.ast),
                    discr=f'errno-class=FATAL-no-requeue:{errno}')
+            p2 = Q.escapes(g, [h], lambda n: n in closes, avoid_edge=contradicts, exits=('exit',))
+            chk.ob('a', wr.ref, f'errno {errno} (fatal): the endpoint is closed, so that nothing is sent after the lost payload (what the OS accepted stays a prefix)',
+                   p2 is None and bool(closes), loc(wr, h.ast), path=pat.path_lines(p2, h) if p2 else None, discr=f'errno-class=FATAL-closes:{errno}')
 
 
 def _errno_test(t, en):
